@@ -397,6 +397,19 @@ def h6(ctx, rid):
     for f in prog.fns.values():
         seeds = [c for c in f.calls if c.path.startswith('std::sync::atomic::Atomic') and prims.receiver_field(f, c) == 'next_blob_id' and c.name in ('store', 'fetch_max') and c.bb in f.reachable()]
         if not seeds:
+            # an initialisation body (it holds &mut Storage itself) that takes ids without any seeding of its own: fine only when
+            # each of its callers seeded the counter before the call (a seeding helper called first is found through the callee set)
+            root = prog.fns[prog.fns[f.id].root]
+            takes = [c for c in f.calls if c.bb in f.reachable() and c.name != 'poll' and any(t in consumers_fn for t in prog.resolve(c) if t in prog.fns)]
+            if root.file == 'src/storage/core.rs' and root.argc >= 1 and root.locals[1]['s'].startswith('&mut storage::core::Storage<') and takes \
+               and root.id.split('::')[-1].startswith('init'):
+                seeders = {g.id for g in prog.fns.values() for c in g.calls if c.path.startswith('std::sync::atomic::Atomic')
+                           and prims.receiver_field(g, c) == 'next_blob_id' and c.name in ('store', 'fetch_max')}
+                seeders |= {prog.fns[x].root for x in seeders}
+                helper_first = [c for c in f.calls if c.bb in f.reachable() and any(t in seeders for t in prog.resolve(c))]
+                for c in takes:
+                    if not any(c.bb not in f.reach_from([0], avoid_exit=[h.bb]) for h in helper_first):
+                        ctx.bad(rid, 'seeded-before-consumed|%s|%s' % (root.id, c.name), c.where(), '`%s` takes a blob id from the counter in an initialisation path that never raised the counter above the ids found in the quarantine directory: an id that is in use there is handed out again, and a later quarantine of that blob renames over the preserved file' % c.name)
             continue
         cons = []
         for c in f.calls:
@@ -562,6 +575,19 @@ def h7(ctx, rid):
             dst_o = core.origins_ip(prog, f, c.args[1], depth=0)
             if not any(o.kind == 'call' and o.data.name == 'join' for o in dst_o):
                 ctx.bad(rid, key, c.where(), 'rename destination is not built by joining onto the quarantine directory')
+                continue
+            # the quarantined file keeps its own name: the ids of quarantined blobs are parsed from these names at every later start
+            # (C07.H6), so the joined component is the file_name() of the blob path and nothing else
+            renamed = None
+            for o in dst_o:
+                if o.kind == 'call' and o.data.name == 'join' and len(o.data.args) > 1:
+                    def ext(c2):
+                        return 0 if c2.name in ('to_os_string', 'to_owned', 'to_path_buf', 'clone', 'ok_or_else', 'ok_or', 'branch', 'as_os_str', 'into', 'as_ref', 'unwrap', 'expect', 'to_string_lossy', 'to_str') else None
+                    nm = core.origins(o.fn, o.data.args[1], extra_transparent=ext)
+                    if not nm or not all(x.kind == 'call' and x.data.name == 'file_name' for x in nm):
+                        renamed = [x for x in nm if not (x.kind == 'call' and x.data.name == 'file_name')][:2]
+            if renamed is not None:
+                ctx.bad(rid, key, c.where(), 'the blob is quarantined under a name that is not its own file name (%s): its id can no longer be parsed from the quarantine directory, the id counter falls back after a restart and the id is handed out again' % renamed)
                 continue
             # every other use of the source path in this body
             body = f
